@@ -6,6 +6,7 @@ VERIF = os.path.dirname(os.path.dirname(os.path.abspath(__file__)))
 sys.path.insert(0, os.path.join(VERIF, 'gen')); sys.path.insert(0, os.path.join(VERIF, 'monitors'))
 REPO = os.environ.get('VERIF_REPO', '/repo')
 BUILD = os.path.join(VERIF, 'build')
+EVID = os.environ.get('VERIF_EVIDENCE_DIR', os.path.join(VERIF, 'evidence'))   # seeded-change experiments write elsewhere
 JOBS = int(os.environ.get('VERIF_JOBS', '16'))
 GUARD = 'HFSM2_VERIF'
 
@@ -197,7 +198,7 @@ class Verdict:
         self.other[prop + '.' + key] = self.other.get(prop + '.' + key, 0) + count
     def finish(self, coverage, assumptions, level='exploration'):
         wall = time.time() - self.t0
-        os.makedirs(os.path.join(VERIF, 'evidence', 'replays'), exist_ok=True)
+        os.makedirs(os.path.join(EVID, 'replays'), exist_ok=True)
         new = []; knownhits = {}
         for key, e in self.viol.items():
             k = match_known(self.known, self.prop, key)
@@ -210,11 +211,11 @@ class Verdict:
             print('KNOWN-FINDING: property=%s %s [key %s, %d observations]' % (self.prop, kh['finding']['description'], kh['finding']['key'], kh['count']))
         replay_paths = []
         import glob
-        for old in glob.glob(os.path.join(VERIF, 'evidence', 'replays', self.prop + '-*.json')):
+        for old in glob.glob(os.path.join(EVID, 'replays', self.prop + '-*.json')):
             try: os.unlink(old)
             except OSError: pass
         for key, e in new:
-            rp = os.path.join(VERIF, 'evidence', 'replays', '%s-%s.json' % (self.prop, sha(key)[:10]))
+            rp = os.path.join(EVID, 'replays', '%s-%s.json' % (self.prop, sha(key)[:10]))
             with open(rp, 'w') as f: json.dump({'property': self.prop, 'key': key, 'count': e['count'], 'first': e['first'], 'run': e['run'], 'seed': self.seed, 'tier': self.tier}, f, indent=1, default=str)
             replay_paths.append(rp)
             print('VIOLATION property=%s replay=%s' % (self.prop, rp))
@@ -225,7 +226,7 @@ class Verdict:
         cov['inconclusive_runs'] = self.inconclusive[:10]
         ev = {'property_id': self.prop, 'tier': self.tier, 'seed': self.seed, 'level': level, 'coverage': cov, 'assumptions': assumptions,
               'wall_s': round(wall, 2), 'violations': len(new)}
-        with open(os.path.join(VERIF, 'evidence', self.prop + '.json'), 'w') as f: json.dump(ev, f, indent=1, default=str)
+        with open(os.path.join(EVID, self.prop + '.json'), 'w') as f: json.dump(ev, f, indent=1, default=str)
         if self.harness_errors:
             for h in self.harness_errors[:5]: print('HARNESS-ERROR: %s' % h)
         if new: return 1
